@@ -554,3 +554,17 @@ func (*errorSessionConfigsChanged) Error() string {
 func (*errorSessionConfigsChanged) CRC() uint32 {
 	panic("makes no sense")
 }
+
+// errorUndecodableResponse is what a request waiting in service mode (key exchange) receives when the
+// server's answer to it could not be decoded
+type errorUndecodableResponse struct {
+	err error
+}
+
+func (e *errorUndecodableResponse) Error() string {
+	return "can't decode response: " + e.err.Error()
+}
+
+func (*errorUndecodableResponse) CRC() uint32 {
+	panic("makes no sense")
+}
